@@ -208,6 +208,26 @@ def _mesh_checks(ck, m, rng, tier, rules):
         if one.dims != ():
             ck.fail("removes_face_dim:rank1_scalar", "rank-1 integral is not 0-dimensional", "removes exactly the face dimension", inputs, list(one.dims))
 
+    # ---- the constant 1 against areas computed face by face on single-face grids (independent of the order and of the sizes of the
+    #      other faces of the mesh)
+    if nf <= 16:
+        lon_all, lat_all = np.array(m["lon"], float), np.array(m["lat"], float)
+        for rule, order in rules[:: max(1, len(rules) // 2)]:
+            ck.cases += 1
+            inputs = {"mesh": name, "quadrature_rule": rule, "order": order}
+            try:
+                single = []
+                for row in m["faces"]:
+                    c = [int(v) for v in row if v != FILL]
+                    g1 = ux.Grid.from_topology(node_lon=lon_all[c], node_lat=lat_all[c], face_node_connectivity=np.array([list(range(len(c)))]), fill_value=FILL)
+                    single.append(float(g1.compute_face_areas(rule, order)[0][0]))
+                one = float(ux.UxDataArray(np.ones(nf), dims=["n_face"], uxgrid=grid_of(m), name="one").integrate(rule, order).values)
+            except Exception:  # noqa
+                continue
+            if not np.isclose(one, float(np.sum(single)), rtol=1e-9, atol=0):
+                ck.fail("constant_one_total_area:face_by_face", "integrating 1 differs from the sum of the areas of the faces computed one by one "
+                        "(each on a grid holding only that face)", "integrating the constant 1 gives the grid's total area", inputs, one, float(np.sum(single)))
+
     # ---- the constant 1 on a grid given by Cartesian corners only (radii not uniform), whatever was accessed first
     sizes = {sum(1 for v in row if v != FILL) for row in m["faces"]}
     if len(sizes) == 1 and nf <= 40:
